@@ -93,7 +93,11 @@ def check_text(ctx, text, origin, mode):
         if '##### Part' in text:
             mode = case['mode'] = 'verify'
         else:
-            whole = prefix + '##### Part 1\n' + text
+            # the marker line ends like the lines of a Windows file in every third case (the \r then belongs to the marker's line)
+            eol = case.get('marker_eol')
+            if eol is None:
+                eol = case['marker_eol'] = '\r\n' if (len(text) + len(prefix)) % 3 == 0 else '\n'
+            whole = prefix + '##### Part 1' + eol + text
             sec_offset = len(re.findall(r'\r\n|\r|\n', prefix))        # lines as CPython counts them: \n, \r\n and a lone \r end a line
             text_in_section = '\n' + text
             kind, ref = reference(text_in_section)
